@@ -44,6 +44,8 @@ def rlog(x):
 
 def rtanh(x):
     n = sc.lift(x)
+    if sc.isc(n, 0):
+        return S(sc.const(0))
     return S(mk("tanh", (n,)))
 
 
@@ -164,6 +166,14 @@ class Case:
             CTX.rewrite = False
         try:
             x_arr = env.arr("x", shape, dt, lo=-BOUND, hi=BOUND)
+            if sp.get("zero"):
+                # the first input is exactly 0 (a constant, not a value the solver may move): the point where two-branch
+                # "stable" formulas meet - measure zero for the solver, everyday for data
+                if env.sym:
+                    raw = x_arr.view(np.ndarray)
+                    raw[(0,) * raw.ndim] = S(sc.const(0), np.dtype(dt))
+                else:
+                    x_arr[(0,) * x_arr.ndim] = 0.0
             extra = {}
             t_arr = None
             if sp["op"] == "bce_with_logits":
@@ -215,6 +225,9 @@ class Case:
         shape = tuple(sp["shape"])
         n = int(np.prod(shape, dtype=int)) if shape else 1
         xs = [pt[k] for k in sorted((k for k in pt if k == "x" or k.startswith("x_")), key=_key)]
+        if sp.get("zero"):
+            names_ = ["x"] if n == 1 and not shape else ["x" + "".join("_%d" % i for i in idx) for idx in np.ndindex(*shape)]
+            xs = [0.0 if k == 0 else pt.get(nm_, 0.0) for k, nm_ in enumerate(names_)]
         ts = [pt[k] for k in sorted((k for k in pt if k == "t" or k.startswith("t_")), key=_key)]
         gs = [pt[k] for k in sorted((k for k in pt if k == "g" or k.startswith("g_")), key=_key)]
         msgs = []
@@ -304,6 +317,11 @@ def enumerate_specs(tier):
     for dt in dts:
         for op in ("sigmoid", "tanh", "selu"):
             specs.append({"op": op, "dtype": dt, "shape": [1]})
+        for op in ("sigmoid", "tanh", "selu"):
+            specs.append({"op": op, "dtype": dt, "shape": [1], "zero": True})
+        specs.append({"op": "bce_with_logits", "dtype": dt, "shape": [1], "via": "F", "zero": True})
+        for op in ("softmax", "log_softmax"):
+            specs.append({"op": op, "dtype": dt, "shape": [2], "zero": True})
         for op in ("softmax", "log_softmax"):
             # rows of 2 logits in both tiers.  Rows of 3 were part of the thorough tier and never came to a verdict: softmax
             # did not finish its path exploration within 90 minutes, log_softmax stopped after 241 paths on solver models that
